@@ -229,6 +229,7 @@ int main(void) {
 		size_t n;
 		uint8_t *in = vh_unhex(hex, &n);
 		if (n >= ARENA) abort();
+		vh_watchdog(2, 20); /* a case costs microseconds: 2 s of CPU time (20 s of wall clock) without an answer = the code under test does not terminate */
 		if (!strcmp(op, "req")) do_req(in, n);
 		else if (!strcmp(op, "resp")) do_resp(in, n);
 		else if (!strcmp(op, "hdr")) do_hdr(in, n, qs);
@@ -242,6 +243,7 @@ int main(void) {
 			for (int i = 1; i < cnt; i++) vh_buf_free(sv[i]);
 		}
 		else printf("{\"op\":\"?\"}\n");
+		vh_watchdog(0, 0);
 		vh_buf_free(in);
 	}
 	return 0;
